@@ -86,8 +86,21 @@ TABLE = {
 }
 
 
+
+GUARDED = [
+    ('ArrayAssignment2LoopsTrans', 'validate'),
+    ('Reference2ArrayRangeTrans', 'validate'),
+    ('ArrayAccess2LoopTrans', 'validate'),
+    ('Intrinsic2CodeTrans', 'validate'),
+    ('DotProduct2CodeTrans', 'validate'),
+    ('Matmul2CodeTrans', 'validate'),
+    ('ArrayReductionBaseTrans', 'validate'),
+]
+
 def check(idx, run):
     run.explanation = __doc__
+    from sa.guards import check_guards
+    check_guards(idx, run, "C06.R4", GUARDED)
     check_table(idx, run, "C06.R1", TABLE)
     # subclasses that override validate chain to the base checks
     base = idx.get_class("Intrinsic2CodeTrans")
